@@ -42,7 +42,7 @@ XS = I.XS
 
 CROSS_PAIRINGS = True
 
-ALPHABET = {"string": ["a", "b c", "x&<y"], "int": ["1", "-5"], "boolean": ["true", "false"]}
+ALPHABET = {"string": ["a", "b \u00e9", "x&<y"], "int": ["1", "-5"], "boolean": ["true", "false"]}
 
 
 # ---------------------------------------------------------------------------------------
@@ -152,6 +152,7 @@ class Wsdl:
     port: str = "P"
     placement: str = "inline"          # inline | xs-import | wsdl-import-xsd | wsdl-import-wsdl | two-inline
     default_ns: bool = False           # WSDL namespace as default namespace instead of the wsdl: prefix
+    soap12_port: bool = False          # a second binding (SOAP 1.2) of the same port type with its own port / endpoint, after the SOAP 1.1 one
     features: list = field(default_factory=list)
 
 
@@ -185,9 +186,15 @@ def gen_wsdl(ch: Chooser, max_features: int, max_ops: int = 4) -> Wsdl:
         return v
 
     n_ops = pick([n for n in OPS if n <= max_ops], "ops")
-    style = pick(["document", "rpc"], "style")
+    # style and part shape of the first operation are ONE choice, so that every rpc shape is a single deviation
+    # away from the base; further operations follow the binding's style
+    kinds = [(st, sh) for st in ("document", "rpc") for sh in SHAPES[st]]
+    k = ch.choose(len(kinds), "op0")
+    style, shape0 = kinds[k]
+    if k:
+        feats.append(f"op0={style}/{shape0}")
     style_on = pick(STYLE_ON[style], "style-on")
-    shapes = [pick(SHAPES[style], f"shape{i}") for i in range(n_ops)]
+    shapes = [shape0] + [pick(SHAPES[style], f"shape{i}") for i in range(1, n_ops)]
     header = pick(HEADERS, "header")
     fault = pick(FAULTS, "fault")
     placement = pick(PLACEMENTS, "placement")
@@ -200,18 +207,25 @@ def gen_wsdl(ch: Chooser, max_features: int, max_ops: int = 4) -> Wsdl:
     default_ns = ch.flag("wsdl-default-ns")
     if default_ns:
         feats.append("wsdl-default-ns")
+    soap12 = ch.flag("soap12-port")
+    if soap12:
+        feats.append("soap12-port")
+    shared_out = n_ops > 1 and ch.flag("shared-output-message")
+    if shared_out:
+        feats.append("shared-output-message")
     if ch.cost > max_features:
         raise Prune("more deviations than the bound")
     w = build(n_ops=n_ops, style=style, style_on=style_on, shapes=shapes, header=header, fault=fault, placement=placement, ns_mode=ns_mode,
-              form=form, action=action, location=location, opnames=opnames, msgnames=msgnames, default_ns=default_ns)
+              form=form, action=action, location=location, opnames=opnames, msgnames=msgnames, default_ns=default_ns, soap12_port=soap12, shared_output=shared_out)
     w.features = feats
     return w
 
 
 def build(*, n_ops=1, style="document", style_on="binding", shapes=None, header="none", fault="none", placement="inline", ns_mode="distinct",
-          form="qualified", action="per-op", location=LOCATIONS[0], opnames="Op", msgnames="convention", default_ns=False) -> Wsdl:
+          form="qualified", action="per-op", location=LOCATIONS[0], opnames="Op", msgnames="convention", default_ns=False, soap12_port=False,
+          shared_output=False) -> Wsdl:
     shapes = shapes or [SHAPES[style][0]] * n_ops
-    w = Wsdl(style=style, style_on=style_on, location=location, placement=placement, default_ns=default_ns)
+    w = Wsdl(style=style, style_on=style_on, location=location, placement=placement, default_ns=default_ns, soap12_port=soap12_port)
     data_ns = "urn:data" if ns_mode == "distinct" else w.tns
     if ns_mode == "same":
         w.rpc_ns = w.tns
@@ -296,11 +310,14 @@ def build(*, n_ops=1, style="document", style_on="binding", shapes=None, header=
                 pout = [Part("return", element=elem(n + "Result", out_fields(), resp_schema))]
             else:
                 raise HarnessError(shape)
+        if shared_output and i:
+            # every further operation answers with the first operation's output message
+            pout = None
         if msgnames == "convention":
             # as in upstream's hello fixture: input message named after the operation, output + "Response"
-            mi, mo = msg(n, pin), msg(n + "Response", pout)
+            mi, mo = msg(n, pin), (msg(n + "Response", pout) if pout is not None else w.ops[0].output.message)
         else:
-            mi, mo = msg(n + "SoapIn", pin), msg(n + "SoapOut", pout)
+            mi, mo = msg(n + "SoapIn", pin), (msg(n + "SoapOut", pout) if pout is not None else w.ops[0].output.message)
         op = Operation(n, style, Side(mi), Side(mo), shape=shape)
         op.soap_action = {"per-op": f"urn:svc/{n}", "empty": "", "absent": None, "url": f"http://example.test/a?x=1&y=2#{n}"}[action]
         w.ops.append(op)
@@ -430,8 +447,14 @@ def render(w: Wsdl) -> dict[str, str]:
         bd.append(f'<{P}operation name="{op.name}">{so}{side("input", op.input, op)}{side("output", op.output, op)}'
                   + "".join(f'<{P}fault name="{fn}"><soap:fault name="{fn}" use="literal"/></{P}fault>' for fn, _ in op.faults) + f"</{P}operation>")
     bd.append(f"</{P}binding>")
-    svc = (f'<{P}service name="{w.service}"><{P}port name="{w.port}" binding="tns:{w.binding}"><soap:address location="{I.esc_attr(w.location)}"/>'
-           f"</{P}port></{P}service>")
+    ports = f'<{P}port name="{w.port}" binding="tns:{w.binding}"><soap:address location="{I.esc_attr(w.location)}"/></{P}port>'
+    if w.soap12_port:
+        # what .NET / WCF services publish: the same port type bound a second time with SOAP 1.2, at its own endpoint
+        nsdecl12 = ' xmlns:soap12="http://schemas.xmlsoap.org/wsdl/soap12/"'
+        head = head.replace(f' xmlns:soap="{SOAP_NS}"', f' xmlns:soap="{SOAP_NS}"' + nsdecl12)
+        bd += [x.replace("<soap:", "<soap12:").replace(f'name="{w.binding}"', f'name="{w.binding}12"') for x in bd]
+        ports += f'<{P}port name="{w.port}12" binding="tns:{w.binding}12"><soap12:address location="{I.esc_attr(soap12_location(w))}"/></{P}port>'
+    svc = f'<{P}service name="{w.service}">{ports}</{P}service>'
 
     if w.placement == "wsdl-import-wsdl":
         # abstract part (types, messages, portType) in a second WSDL of the same namespace; binding + service in the main one
@@ -440,6 +463,10 @@ def render(w: Wsdl) -> dict[str, str]:
     else:
         files["svc.wsdl"] = head + imports + types + "".join(msgs) + "".join(pt) + "".join(bd) + svc + f"</{P}definitions>"
     return files
+
+
+def soap12_location(w: Wsdl) -> str:
+    return w.location.replace("/svc", "/svc12")
 
 
 # ---------------------------------------------------------------------------------------
